@@ -18,7 +18,19 @@ type Engine struct {
 // Evaluate executes all of the expressions and returns the final result.
 //
 // Evaluate expects that there is at least one document provided.
-func (e *Engine) Evaluate(documents []*gedcom.Document) (interface{}, error) {
+func (e *Engine) Evaluate(documents []*gedcom.Document) (result interface{}, err error) {
+	// A query can use any method or function on any value and most of that is
+	// done through reflection. There are far too many combinations that do not
+	// make sense (like asking for the nodes with a tag path of a number) to
+	// check each of them individually, so anything that goes wrong while
+	// evaluating is returned as an error.
+	defer func() {
+		if r := recover(); r != nil {
+			result = nil
+			err = fmt.Errorf("unable to evaluate: %v", r)
+		}
+	}()
+
 	// Before we begin we will setup the Document variables. Each document, in
 	// order will be given Document1, Document2, ...
 	for i, document := range documents {
